@@ -270,6 +270,21 @@ CHECKS = {
         TRUSTED + "; blob sizes and spacing above the pickers' exclusion distance",
         "DESIGN.md 4/C20",
     ),
+    "C18": (
+        "exploration",
+        "spec/Pca.tla defines block-orthogonal integer designs whose centred SVD is explicit in integers (sigma_j^2 = |B_j| "
+        "sum_i A_ij^2, components = block indicators, squared projections = A_ij^2 |B_j|); TLC checks zero mean, "
+        "orthogonality, distinct singular values and that every row partition is a legal chunking, and enumerates designs x "
+        "boxes (27, 40 and 729 voxels, i.e. both solver paths) x n_components (incl. truncation below the rank) x mask x row "
+        "and voxel chunkings with their exact expectations; PcaClassifier is run on dask stacks with those chunkings and "
+        "compared (singular values, |projections|, component supports, run-to-run). Full-rank noisy stacks are checked for "
+        "chunking and run-to-run invariance only; loader.classify is checked to add exactly one integer label column in "
+        "molecule order, change nothing else, and separate planted classes. 'Equal to an exact SVD for every data set' is a "
+        "floating-point claim outside the technique, hence 'exploration'.",
+        "exact low-rank family and chunkings enumerated by TLC on the TLA+ spec Pca.tla; each case replayed on PcaClassifier / loader.classify; invariance relations on noisy data",
+        TRUSTED + "; no exact oracle for full-rank noisy data inside the technique",
+        "DESIGN.md 4/C18",
+    ),
 }
 
 REASON_TODO = "check not built yet in this round (planned: see DESIGN.md section 4)"
